@@ -265,18 +265,30 @@ Fixpoint parse_fields (ls : list bytes) : option (list (bytes * bytes)) :=
 Definition drop_underscore (fs : list (bytes * bytes)) : list (bytes * bytes) :=
   filter (fun f => negb (memb 95 (fst f))) fs.
 
+(* RFC 9110 5.3: field lines with the same name are combined, in order, with
+   ", ".  Names are case-insensitive: they are normalised to upper case with "-"
+   written "_" (the CGI form in which they are handed on; injective up to case
+   because names containing "_" have been dropped). *)
+Definition norm_name (n : bytes) : bytes :=
+  map (fun x => if x =? 45 then 95 else if is_lower x then x - 32 else x) n.
+
+Definition K_TE : bytes := norm_name n_transfer_encoding.
+Definition K_CL : bytes := norm_name n_content_length.
+Definition K_CT : bytes := norm_name n_content_type.
+Definition K_HOST : bytes := norm_name n_host.
+Definition K_CONN : bytes := norm_name n_connection.
+
 (* fields that must not be repeated (RFC 9112 3.2 Host, 6.3 Content-Length; Content-Type by decision) *)
-Definition is_single (name : bytes) : bool :=
-  ieq name n_host || ieq name n_content_length || ieq name n_content_type.
+Definition is_single_key (k : bytes) : bool := beqb k K_HOST || beqb k K_CL || beqb k K_CT.
 
-Fixpoint count_name (name : bytes) (fs : list (bytes * bytes)) : nat :=
+Fixpoint no_repeated_single (seen : list bytes) (fs : list (bytes * bytes)) : bool :=
   match fs with
-  | [] => O
-  | (n, _) :: r => (if ieq n name then 1 else 0)%nat + count_name name r
+  | [] => true
+  | (n, _) :: r =>
+    let k := norm_name n in
+    if is_single_key k && existsb (beqb k) seen then false
+    else no_repeated_single (k :: seen) r
   end.
-
-Definition no_repeated_single (fs : list (bytes * bytes)) : bool :=
-  forallb (fun f => negb (is_single (fst f)) || Nat.leb (count_name (fst f) fs) 1) fs.
 
 (* the field section of a head: None = refuse 400 *)
 Definition head_fields (ls : list bytes) : option (list (bytes * bytes)) :=
@@ -286,15 +298,9 @@ Definition head_fields (ls : list bytes) : option (list (bytes * bytes)) :=
     match parse_fields joined with
     | None => None
     | Some fs => let fs' := drop_underscore fs in
-                 if no_repeated_single fs' then Some fs' else None
+                 if no_repeated_single [] fs' then Some fs' else None
     end
   end.
-
-(* RFC 9110 5.3: field lines with the same name are combined, in order, with
-   ", ".  Keys are case-insensitive: they are normalised to upper case with "-"
-   written "_" (the CGI form in which they are handed on). *)
-Definition norm_name (n : bytes) : bytes :=
-  map (fun x => if x =? 45 then 95 else if is_lower x then x - 32 else x) n.
 
 Fixpoint combine_add (d : list (bytes * bytes)) (k v : bytes) : list (bytes * bytes) :=
   match d with
@@ -314,10 +320,6 @@ Fixpoint remove (d : list (bytes * bytes)) (k : bytes) : list (bytes * bytes) :=
   | [] => []
   | (k', v) :: r => if beqb k k' then r else (k', v) :: remove r k
   end.
-
-Definition K_TE : bytes := norm_name n_transfer_encoding.
-Definition K_CL : bytes := norm_name n_content_length.
-Definition K_CONN : bytes := norm_name n_connection.
 
 (* ------------------------------------------------------------------ *)
 (* framing, RFC 9112 section 6.3, clause by clause *)
